@@ -107,6 +107,27 @@ def judge(out, results, tlcs, label="TraceEnvelope"):
     return seen_mech
 
 
+def run_pairs(out, tier, work):
+    """EnvelopePair.tla: every driving history of two (thorough: three) overlapping generator activations under a wrapper probe"""
+    insts, maxops = ('{"A", "B"}', 5) if tier == "quick" else ('{"A", "B", "C"}', 6)
+    r = core.run_tlc("EnvelopePair", f"SPECIFICATION Spec\nCONSTANTS Insts = {insts}  MaxOps = {maxops}\nINVARIANT Export\nCHECK_DEADLOCK FALSE\n",
+                     workers=1, timeout=1800)
+    out.add_tlc("EnvelopePair", r)
+    hists = [json.loads(t[1]) for t in r.tagged("HIST")]
+    cases = [{"id": 900000 + i, "hist": h} for i, h in enumerate(hists)]
+    results = execute(cases, work, par=8)
+    p = os.path.join(work, "pairs.json")
+    json.dump([{"id": c["id"], "events": c["events"], "still": c["still"], "started": c["started"]} for c in results], open(p, "w"))
+    t = core.run_tlc("TraceEnvelopePair", "TraceEnvelopePair.cfg", env={"TRACE_FILE": p}, workers=2, timeout=1800)
+    out.add_tlc("TraceEnvelopePair", t)
+    by = {c["id"]: c for c in results}
+    for tup in t.tagged("FAIL"):
+        out.judge({"clause": "WrapPairing:" + tup[2], "why": "envelope"}, {"case": by[tup[1]], "verdict": list(tup[2:])})
+    out.traces += len(results)
+    out.extra["envelope_pair_histories"] = len(results)
+    return results
+
+
 def run(out, tier, seed):
     rng = random.Random(seed * 7919 + 211)
     maxlen = 3 if tier == "quick" else 4
@@ -123,6 +144,7 @@ def run(out, tier, seed):
     results = execute(cases, work)
     tlcs = validate(results, work)
     seen = judge(out, results, tlcs)
+    run_pairs(out, tier, work)
     for s in sigs:
         if s not in seen:
             out.drift.append(f"Envelope signature {s} did not reproduce in the real code")
